@@ -13,6 +13,7 @@ from pvx import field
 from pvx.claims import deg, taylor_spec, eq_spec, flat, flat_float, full_domain
 from pvx.harness import Ob
 from pvx.loader import load, rdomain, py_func, source_of
+from pvx.sym import PoisonRead
 from pvx.sym import RSym, TSym, T, POISON, unwrap, explore, fill, Node
 from pvx.npproxy import NpProxy
 from spec import wgs84, frames, nav_ode
@@ -120,8 +121,8 @@ def run(ctx):
                 cc_eps=(-1e-2, 1e-2), cc_tol=1e-4)
 
     # ---- frame / purity of the loop body (trace domain) and index bounds (z3) ------------------
-    _frame(ctx, py)
-    _bounds(ctx, py)
+    ctx.guard(_frame, ctx, py)
+    ctx.guard(_bounds, ctx, py)
 
     # ---- callee contracts the kernel proof relied on ---------------------------------------------
     p_, a_ = sp.symbols("phi alt", real=True)
@@ -132,25 +133,15 @@ def run(ctx):
     C17._rotvec(ctx, py)
 
     # ---- glue: Integrator passes the right things to the kernel and returns its rows ----------
-    _glue(ctx, py)
+    ctx.guard(_glue, ctx, py)
 
     # ---- bounded stand-in: Richardson on the real integrator ---------------------------------------
-    _richardson(ctx, py)
+    ctx.guard(_richardson, ctx, py)
 
 
 # ---------------------------------------------------------------------------------------------
 def _trace_run(py, N, offset, n, with_altitude):
     """Execute the real kernel in the trace domain; buffers are POISON except row `offset`."""
-    f = py_func(py._numba_integrate.integrate)
-    proxy = NpProxy(TSym)
-
-    def rot(rv, mat):
-        for i in range(3):
-            for j in range(3):
-                mat[i, j] = TSym(TSym._op("expm%d%d" % (i, j), *[x.e for x in rv]))
-
-    def grav(lat, alt):
-        return TSym(TSym._op("gravity", lat.e, alt.e))
     lla = fill(np.empty((N, 3), dtype=object), POISON)
     vel = fill(np.empty((N, 3), dtype=object), POISON)
     mat = fill(np.empty((N, 3, 3), dtype=object), POISON)
@@ -163,13 +154,9 @@ def _trace_run(py, N, offset, n, with_altitude):
     th = np.array([[T("th%d_%d" % (i, k)) for k in range(3)] for i in range(n)], dtype=object)
     dv = np.array([[T("dv%d_%d" % (i, k)) for k in range(3)] for i in range(n)], dtype=object)
     keep = dict(lla=lla.copy(), vel=vel.copy(), mat=mat.copy(), dts=dts.copy(), th=th.copy(), dv=dv.copy())
-    ni = py._numba_integrate
-    from pvx.npproxy import patched
-    consts = {k: T(k) for k in ("A", "E2", "RATE", "GE", "GP", "F")}
-    with patched((ni, dict(np=proxy, mat_from_rotvec=rot, gravity=grav)),
-                 (py.earth, consts),
-                 (py.transform, dict(DEG_TO_RAD=T("DEG_TO_RAD"), RAD_TO_DEG=T("RAD_TO_DEG")))):
-        f(dts, lla, vel, mat, th, dv, offset, with_altitude)
+    from pvx.loader import tdomain
+    with tdomain(py):          # kernel and every njit helper it calls run as the Python source numba compiles
+        py._numba_integrate.integrate(dts, lla, vel, mat, th, dv, offset, with_altitude)
     return lla, vel, mat, dts, th, dv, keep
 
 
@@ -180,9 +167,9 @@ def _frame(ctx, py):
         try:
             N, off, n = 6, 2, 2
             lla, vel, mat, dts, th, dv, keep = _trace_run(py, N, off, n, wa)
-        except Exception as exc:
+        except (PoisonRead, IndexError) as exc:
             ctx.ob("C01.kernel.frame.%s" % tag, "f", False, "trace-domain", time.time() - t0,
-                   "kernel read an uninitialised / foreign cell or failed: %r" % (exc,),
+                   "kernel read an uninitialised / foreign cell: %r" % (exc,),
                    cex=dict(N=6, offset=2, n=2, with_altitude=wa), native=dict(reproduced=None))
             continue
         written = [r for r in range(N) if not all(c is POISON for c in lla[r]) or not all(c is POISON for c in vel[r])
@@ -263,58 +250,117 @@ def _node(c):
 
 
 def _bounds(ctx, py):
-    """All subscripts of the kernel are i, j or j+1 on the right arrays; VC over all integers (z3)."""
+    """One generic iteration of the REAL kernel loop on symbolic integers: `range(len(theta))` yields one symbolic i with
+    0 <= i < n, the buffers are stand-ins with z3 lengths, every subscript executed is a VC 0 <= index < length, for all
+    n >= 0, offset >= 0, offset + n < N (the kernel's precondition, established by C02.capacity.kernel_precondition)."""
     import z3
+    from pvx.zdomain import explore_z, ZCtx, ZSym, Opaque, OPAQUE, Concretization
+    from pvx.npproxy import patched
+    from pvx.loader import dispatcher_patches
+    ni = py._numba_integrate
     t0 = time.time()
-    src = textwrap.dedent(inspect.getsource(py_func(py._numba_integrate.integrate)))
-    fn = ast.parse(src).body[0]
-    loop = next(n for n in ast.walk(fn) if isinstance(n, ast.For))
-    ok_loop = (isinstance(loop.iter, ast.Call) and getattr(loop.iter.func, "id", "") == "range"
-               and ast.unparse(loop.iter.args[0]) == "len(theta)" and len(loop.iter.args) == 1)
-    ctx.ob("C01.kernel.bounds.loop_range", "c", ok_loop, "ast", 0.0, "for %s in %s" % (ast.unparse(loop.target), ast.unparse(loop.iter)))
-    i, offset, n, N = z3.Ints("i offset n N")
-    env = {ast.unparse(loop.target): i, "offset": offset}
-    # j = i + offset (read the assignment from the source)
-    for st in loop.body:
-        if isinstance(st, ast.Assign) and len(st.targets) == 1 and isinstance(st.targets[0], ast.Name):
-            try:
-                env[st.targets[0].id] = _z3_expr(st.value, env)
-            except KeyError:
-                pass
-    big = {"lla", "velocity_n", "mat_nb"}
-    small = {"dt_array", "theta", "dv"}
-    pre = z3.And(0 <= i, i < n, offset >= 0, offset + n < N)
-    count = 0
+    tally = dict(vcs=0, reads=0, writes=0, iterations=0, paths=0)
     bad = []
-    for node in ast.walk(loop):
-        if isinstance(node, ast.Subscript) and isinstance(node.value, ast.Name) and node.value.id in big | small:
-            idx = node.slice.elts[0] if isinstance(node.slice, ast.Tuple) else node.slice
-            try:
-                e = _z3_expr(idx, env)
-            except KeyError as exc:
-                bad.append("%s: index %s not affine in i, offset" % (ast.unparse(node), exc))
-                continue
-            bound = N if node.value.id in big else n
-            s = z3.Solver()
-            s.add(pre, z3.Not(z3.And(0 <= e, e < bound)))
-            r = s.check()
-            count += 1
-            if r != z3.unsat:
-                bad.append("%s can be out of range: %s" % (ast.unparse(node), s.model() if r == z3.sat else r))
-    ctx.ob("C01.kernel.bounds.indices_in_range", "c", not bad and count > 0, "z3", time.time() - t0,
-           "%d subscripts; requires 0<=offset, offset+len(theta)<len(lla), len(dt_array)=len(dv)=len(theta)" % count if not bad else "; ".join(bad)[:800],
-           cex=None if not bad else dict(subscripts=bad[:4]))
+    touched = {}
 
+    def zi(x):
+        return x.v if isinstance(x, ZSym) else z3.IntVal(int(x))
 
-def _z3_expr(node, env):
-    if isinstance(node, ast.Name):
-        return env[node.id]
-    if isinstance(node, ast.Constant) and isinstance(node.value, int):
-        return node.value
-    if isinstance(node, ast.BinOp) and isinstance(node.op, (ast.Add, ast.Sub)):
-        a, b = _z3_expr(node.left, env), _z3_expr(node.right, env)
-        return a + b if isinstance(node.op, ast.Add) else a - b
-    raise KeyError(ast.unparse(node))
+    for wa in (True, False):
+        def scen():
+            c = ZCtx()
+            n, N, offset = c.new_int("n"), c.new_int("N"), c.new_int("offset")
+            c.assume(n >= 0)
+            c.assume(offset >= 0)
+            c.assume(offset + n < N, "kernel precondition")
+
+            class Arr(Opaque):
+                def __init__(self, name, length, tail):
+                    object.__setattr__(self, "name", name)
+                    object.__setattr__(self, "length", length)
+                    object.__setattr__(self, "tail", tail)
+
+                def _check(self, k, kind):
+                    ks = k if isinstance(k, tuple) else (k,)
+                    first = ks[0]
+                    if isinstance(first, slice):
+                        raise Concretization("kernel slices a buffer along its first axis")
+                    tally["vcs"] += 1
+                    tally[kind] += 1
+                    touched.setdefault(self.name, set()).add(kind)
+                    ok = c.prove("C01.kernel.bounds.indices_in_range", z3.And(zi(first) >= 0, zi(first) < self.length),
+                                 "%s[%s] (%s), length %s" % (self.name, first, kind, self.length))
+                    if ok is not True:
+                        bad.append(c.obligations[-1])
+                    for d, kk in zip(self.tail, ks[1:]):
+                        if not isinstance(kk, slice) and not (0 <= int(kk) < d):
+                            bad.append(("C01.kernel.bounds.indices_in_range", "failed", "%s: trailing index %s out of %d" % (self.name, kk, d), None))
+                    return len(ks)
+
+                def __getitem__(self, k):
+                    used = self._check(k, "reads")
+                    rest = self.tail[used - 1:]
+                    if not rest:
+                        return OPAQUE
+                    out = np.empty(rest, dtype=object)
+                    out.fill(OPAQUE)
+                    return out
+
+                def __setitem__(self, k, v):
+                    self._check(k, "writes")
+
+            arrays = dict(dt_array=Arr("dt_array", n, ()), lla=Arr("lla", N, (3,)), velocity_n=Arr("velocity_n", N, (3,)),
+                          mat_nb=Arr("mat_nb", N, (3, 3)), theta=Arr("theta", n, (3,)), dv=Arr("dv", n, (3,)))
+
+            def zlen(x):
+                return ZSym(x.length) if isinstance(x, Arr) else len(x)
+
+            def zrange(*a):
+                if len(a) == 1 and isinstance(a[0], ZSym):
+                    i = c.new_int("i")
+                    c.assume(z3.And(i >= 0, i < a[0].v), "one generic iteration of range(n)")
+                    tally["iterations"] += 1
+                    return [ZSym(i)]
+                if any(isinstance(x, ZSym) for x in a):
+                    raise Concretization("range() with symbolic start/step")
+                return range(*a)
+
+            class NpNS:
+                nan = float("nan")
+                pi = math.pi
+
+                def __getattr__(self, name):
+                    if name in ("empty", "zeros", "ones", "empty_like", "zeros_like"):
+                        def alloc(shape, *a_, **k_):
+                            out = np.empty(shape if not hasattr(shape, "shape") else shape.shape, dtype=object)
+                            out.fill(OPAQUE)
+                            return out
+                        return alloc
+                    return lambda *a_, **k_: OPAQUE
+
+            def soft(f):
+                def g(*a_, **k_):
+                    try:
+                        return f(*a_, **k_)
+                    except Concretization:
+                        return OPAQUE
+                return g
+            helpers = {k: soft(v.py_func) for k, v in ni.__dict__.items() if hasattr(v, "py_func") and k != "integrate"}
+            with patched((ni, dict(helpers, np=NpNS(), len=zlen, range=zrange))):
+                py_func(ni.integrate)(arrays["dt_array"], arrays["lla"], arrays["velocity_n"], arrays["mat_nb"],
+                                      arrays["theta"], arrays["dv"], ZSym(offset), wa)
+            return None
+        paths = explore_z(scen, max_paths=64)
+        tally["paths"] += len(paths)
+    ctx.paths += tally["paths"]
+    writes_ok = all("writes" not in touched.get(a_, ()) for a_ in ("dt_array", "theta", "dv"))
+    ok = not bad and tally["vcs"] > 0 and tally["iterations"] > 0
+    ctx.ob("C01.kernel.bounds.indices_in_range", "c", ok, "z3(real loop body on symbolic indices)", time.time() - t0,
+           "%d subscript VCs (%d reads, %d writes) on %d paths of one generic iteration, with and without altitude; requires 0<=offset, offset+len(theta)<len(buffers), len(dt_array)=len(dv)=len(theta)"
+           % (tally["vcs"], tally["reads"], tally["writes"], tally["paths"]) if ok else "; ".join("%s: %s %s" % (b_[1], b_[2], b_[3]) for b_ in bad)[:800],
+           cex=None if ok else dict(subscripts=[(b_[2], str(b_[3])) for b_ in bad[:4]], generic_iterations=tally["iterations"]))
+    ctx.ob("C01.kernel.bounds.increments_not_written", "f", writes_ok, "z3(real loop body on symbolic indices)", 0.0,
+           "dt_array, theta, dv are only read; arrays touched: %s" % {k: sorted(v) for k, v in touched.items()})
 
 
 # ---------------------------------------------------------------------------------------------
